@@ -152,3 +152,61 @@ Proof.
   - rewrite firstn_nil. reflexivity.
   - rewrite IH. reflexivity.
 Qed.
+
+Lemma firstn_app_exact {A} (l r:list A) : firstn (length l) (l ++ r) = l.
+Proof. rewrite firstn_app, Nat.sub_diag. cbn [firstn]. rewrite app_nil_r. apply firstn_all. Qed.
+
+Lemma skipn_app_exact {A} (l r:list A) k : skipn (length l + k) (l ++ r) = skipn k r.
+Proof.
+  rewrite skipn_app. rewrite skipn_all2 by lia. cbn [app]. f_equal. lia.
+Qed.
+
+Lemma blit_blit dv p x y :
+  0 <= p -> p + len x + len y <= len dv ->
+  blit (blit dv p x) (p + len x) y = blit dv p (x ++ y).
+Proof.
+  intros Hp H. pose proof (len_nonneg x). pose proof (len_nonneg y).
+  unfold blit at 1.
+  assert (HF : length (firstn (Z.to_nat p) dv ++ x) = Z.to_nat (p + len x)).
+  { rewrite app_length, firstn_length. unfold len in *. lia. }
+  unfold blit at 1. rewrite (app_assoc (firstn (Z.to_nat p) dv) x).
+  rewrite <- HF at 1. rewrite firstn_app_exact.
+  replace (Z.to_nat (p + len x + len y)) with (length (firstn (Z.to_nat p) dv ++ x) + length y)%nat
+    by (rewrite HF; unfold len in *; lia).
+  unfold blit at 1. rewrite (app_assoc (firstn (Z.to_nat p) dv) x).
+  rewrite skipn_app_exact. rewrite skipn_skipn'.
+  unfold blit. rewrite <- !app_assoc. f_equal. f_equal. f_equal. f_equal.
+  rewrite len_app. unfold len in *. lia.
+Qed.
+
+(* offsets of an indexed-string column *)
+Lemma psums_frame (strs:list (list Z)) a b :
+  0 <= a -> a <= b -> b <= len strs ->
+  exists sp sp2,
+    len sp = a /\ len sp2 = b - a /\
+    psums (map (@len Z) strs)
+    = sp ++ psums_from (len (concat (firstn (Z.to_nat a) strs)))
+                       (map (@len Z) (slice strs a b) ++ map (@len Z) (skipn (Z.to_nat b) strs)) /\
+    psums (map (@len Z) strs)
+    = (sp ++ sp2) ++ psums_from (len (concat (firstn (Z.to_nat a) strs)) + len (concat (slice strs a b)))
+                                (map (@len Z) (skipn (Z.to_nat b) strs)).
+Proof.
+  intros Ha Hab Hb.
+  assert (Hd : map (@len Z) strs = map (@len Z) (firstn (Z.to_nat a) strs) ++
+                 map (@len Z) (slice strs a b) ++ map (@len Z) (skipn (Z.to_nat b) strs)).
+  { rewrite <- !map_app. f_equal. apply firstn_skipn_slice; assumption. }
+  unfold psums. rewrite Hd.
+  destruct (psums_from_split 0 (map (@len Z) (firstn (Z.to_nat a) strs))
+              (map (@len Z) (slice strs a b) ++ map (@len Z) (skipn (Z.to_nat b) strs))) as (sp & Hl & He).
+  destruct (psums_from_split (0 + sumZ (map (@len Z) (firstn (Z.to_nat a) strs))) (map (@len Z) (slice strs a b))
+              (map (@len Z) (skipn (Z.to_nat b) strs))) as (sp2 & Hl2 & He2).
+  exists sp, sp2. rewrite !len_concat.
+  split; [|split; [|split]].
+  - unfold len in *. rewrite Hl, map_length, firstn_length. lia.
+  - unfold len. rewrite Hl2, map_length. fold (len (slice strs a b)). apply len_slice; lia.
+  - rewrite He. reflexivity.
+  - rewrite He, He2. rewrite <- app_assoc. reflexivity.
+Qed.
+
+Lemma psums_len l : len (psums l) = len l + 1.
+Proof. unfold psums, len. rewrite psums_from_length. lia. Qed.
